@@ -78,7 +78,7 @@ def check_after_failure(hr, out, before, uas, how, log_pos):
 
 def run_case(case):
   out = Outcome()
-  hr = HistoryRun(case['h'], snapshots=True)
+  hr = HistoryRun(case['h'], snapshots=True, settle=False)
   st8 = {'w': 0, 'nt': 0}
 
   def on_step(s):
